@@ -193,13 +193,8 @@ def executedChecks (e : SpendEnv) (spk ss : Bytes) (wit : List Bytes) : Option (
 def hkOp : HashKind → HashOp
   | .sha256 => .sha256 | .hash256 => .hash256 | .ripemd160 => .ripemd160 | .hash160 => .hash160
 
-/-- rust-bitcoin's `taproot::Signature::from_slice` accepts a 65-byte signature whose last byte
-is 0x00 and reads it as the 64-byte default-type signature; `to_vec` then prints 64 bytes -/
-def schnorrView (tap : Bool) (sig : Bytes) : Bytes :=
-  if tap && sig.length == 65 && sig.getLast? == some 0 then sig.take 64 else sig
-
 def interpEnv (t : Tables) (ctx : Ctx) (dom ver lt sq : Nat) : Interp.IEnv where
-  verifySig pk sig := t.dsigs.contains (dom, pk, schnorrView (ctx == .tap) sig)
+  verifySig pk sig := t.dsigs.contains (dom, pk, sig)
   keyParse pk :=
     if ctx == .tap then pk.length == 32
     else (pk.length == 33 && (pk.head? == some 2 || pk.head? == some 3))
@@ -230,9 +225,9 @@ def showIErr : Interp.IErr → String
   | .couldNotEvaluate => "CouldNotEvaluate"
   | .scriptSatisfactionError => "ScriptSatisfactionError"
 
-def showConstraint (tap : Bool) : Interp.Constraint → String
-  | .pk pk sg => s!"sig:{Hash.toHexW pk}:{Hash.toHexW (schnorrView tap sg)}"
-  | .pkh h pk sg => s!"sigh:{Hash.toHexW h}:{Hash.toHexW pk}:{Hash.toHexW (schnorrView tap sg)}"
+def showConstraint (_tap : Bool) : Interp.Constraint → String
+  | .pk pk sg => s!"sig:{Hash.toHexW pk}:{Hash.toHexW sg}"
+  | .pkh h pk sg => s!"sigh:{Hash.toHexW h}:{Hash.toHexW pk}:{Hash.toHexW sg}"
   | .hashLock k h pre => s!"hash:{HashKind.name k}:{Hash.toHexW h}:{Hash.toHexW pre}"
   | .older n => s!"older:{relCanon n}"
   | .after n => s!"after:{n}"
